@@ -5,7 +5,7 @@ use super::Cfg;
 use crate::e4_topicgrid::ref_matches;
 use crate::vcore::Violation;
 use crate::wire::{Props, Rx, Tx};
-use std::collections::{BTreeMap, HashSet, VecDeque};
+use std::collections::{BTreeMap, BTreeSet, HashSet, VecDeque};
 use std::hash::{Hash, Hasher};
 
 #[derive(Clone, Debug, Hash)]
@@ -29,28 +29,18 @@ pub struct SubInst {
     /// indexes into `accepted` of messages this subscription must deliver, in order
     pub expect: Vec<u32>,
     pub active: bool,
-    /// connection epoch in which it was created
-    pub epoch: u32,
     /// set when retention evicted messages before they were read (completeness waived)
     pub lagged: bool,
     /// retained messages (indexes) that must be replayed for this new subscription
     pub retained_due: Vec<u32>,
     pub retained_seen: Vec<u32>,
     pub replay_retained: bool,
-    /// C08: position in `expect` from which delivery (re)starts on the current connection
-    pub restart: usize,
-}
-
-#[derive(Clone, Debug, Hash, PartialEq, Eq)]
-pub struct Fwd {
-    pub msg: Option<u32>,
-    pub qos: u8,
-    pub pkid: u16,
-    pub retain: bool,
-    pub dup: bool,
-    pub epoch: u32,
-    pub topic: String,
-    pub props: Option<Props>,
+    /// position in `expect` from which delivery (re)starts on the current connection
+    pub restart: u32,
+    /// QoS0 only: messages in [restart, skip_to) may have been lost with the old connection
+    pub skip_to: u32,
+    /// number of accepted messages when the subscription ended
+    pub closed_at: Option<u32>,
 }
 
 #[derive(Clone, Debug, Default, Hash)]
@@ -64,23 +54,40 @@ pub struct CModel {
     pub conn_uid: u32,
     pub will: bool,
     pub subs: Vec<SubInst>,
-    pub forwards: Vec<Fwd>,
+    pub forwards: u32,
     /// possible attributions of the forwards seen on this connection to subscriptions:
     /// each entry is a vector of positions, one per subscription instance
     pub frontier: Vec<Vec<u32>>,
     pub replies_expected: VecDeque<Rx>,
-    pub replies_seen: u32,
+    /// replies owed when the connection was closed: they may still be in the link's
+    /// buffer and arrive, or not
+    pub replies_optional: VecDeque<Rx>,
     pub q2_recorded: VecDeque<u32>,
-    /// QoS>0 forwards pushed by the router and not yet acknowledged (router consumed ack)
-    pub outstanding: VecDeque<u16>,
+    /// QoS>0 forwards received and not yet acknowledged (ack consumed by the router):
+    /// (pkid, subscription index if unambiguous, position in its expect list)
+    pub outstanding: VecDeque<(u16, Option<(u32, u32)>)>,
     /// PUBRECs the router consumed whose PUBCOMP it has not consumed yet
     pub rel_outstanding: VecDeque<u16>,
-    pub session_present: Option<bool>,
     pub expect_session_present: Option<bool>,
-    pub closed_by_model: bool,
-    pub disconnect_notices: u32,
     pub had_session: bool,
-    pub acked_count: u32,
+    pub disconnect_notices: u32,
+    /// accepted indexes received through a shared group, in arrival order
+    pub shared_seen: Vec<u32>,
+}
+
+#[derive(Clone, Debug, Default, Hash)]
+pub struct GroupModel {
+    pub members: BTreeSet<usize>,
+    /// incremented every time the group becomes empty
+    pub epoch: u32,
+}
+
+#[derive(Clone, Debug, Hash)]
+pub struct GMsg {
+    pub idx: u32,
+    pub group: String,
+    pub gepoch: u32,
+    pub delivered_to: Vec<usize>,
 }
 
 pub struct Model {
@@ -89,7 +96,6 @@ pub struct Model {
     pub accepted: Vec<Msg>,
     /// QoS2 publishes received and not yet released
     pub held: Vec<Msg>,
-    pub by_payload: BTreeMap<Vec<u8>, u32>,
     pub clients: Vec<CModel>,
     pub viols: Vec<(String, String)>,
     pub retained: BTreeMap<String, u32>,
@@ -98,10 +104,14 @@ pub struct Model {
     pub check_replies: bool,
     pub check_forwards: bool,
     pub check_retained: bool,
+    pub check_props: bool,
+    pub check_session: bool,
     pub strict_close: bool,
     pub wills_fired: Vec<String>,
-    /// messages that went through a shared group: msg -> members that received it
+    pub groups: BTreeMap<String, GroupModel>,
+    pub gmsgs: Vec<GMsg>,
     pub outcome_acc: u64,
+    pub v5: Vec<bool>,
 }
 
 pub fn split_share(filter: &str) -> (Option<String>, String) {
@@ -121,18 +131,22 @@ impl Model {
             variant: cfg.variant,
             accepted: vec![],
             held: vec![],
-            by_payload: BTreeMap::new(),
             clients: (0..cfg.v5.len()).map(|_| CModel::default()).collect(),
             viols: vec![],
             retained: BTreeMap::new(),
             wills: BTreeMap::new(),
             notes: vec![],
             check_replies: matches!(p, "C06" | "C14"),
-            check_forwards: matches!(p, "C01" | "C08" | "C09" | "C14" | "C15" | "C16" | "C20"),
-            check_retained: matches!(p, "C15" | "C16"),
+            check_forwards: matches!(p, "C01" | "C06" | "C08" | "C09" | "C14" | "C15" | "C16" | "C17" | "C20"),
+            check_retained: matches!(p, "C15" | "C16" | "C08"),
+            check_props: p == "C20",
+            check_session: p == "C08",
             strict_close: true,
             wills_fired: vec![],
+            groups: BTreeMap::new(),
+            gmsgs: vec![],
             outcome_acc: 0,
+            v5: cfg.v5.clone(),
         }
     }
 
@@ -160,7 +174,7 @@ impl Model {
 
     pub fn connect_sent(&mut self, ci: usize, clean: bool, will: bool, takeover: bool) {
         if takeover {
-            self.end_connection(ci, false);
+            self.end_connection(ci);
         }
         let c = &mut self.clients[ci];
         // session present iff a previous session exists and both connects are persistent
@@ -170,30 +184,62 @@ impl Model {
     }
 
     pub fn connected(&mut self, ci: usize, conn_id: usize, uid: u32) {
-        self.clients[ci].conn_uid = uid;
-        let clean;
-        {
+        let resume = {
             let c = &mut self.clients[ci];
+            c.conn_uid = uid;
             c.registered = true;
             c.ever_connected = true;
             c.conn_id = conn_id;
             c.epoch += 1;
-            c.closed_by_model = false;
             c.replies_expected.clear();
+            c.replies_optional.clear();
             c.outstanding.clear();
             c.q2_recorded.clear();
-            clean = c.clean;
-            if clean || !c.had_session {
-                c.subs.iter_mut().for_each(|s| s.active = false);
-                c.rel_outstanding.clear();
+            !c.clean && c.had_session
+        };
+        if !resume {
+            self.drop_subscriptions(ci);
+            let c = &mut self.clients[ci];
+            c.rel_outstanding.clear();
+            c.had_session = false;
+        } else {
+            // the broker re-sends the releases the client has not completed
+            let c = &mut self.clients[ci];
+            let rels: Vec<u16> = c.rel_outstanding.iter().cloned().collect();
+            for id in rels {
+                c.replies_expected.push_back(Rx::PubRel(id));
             }
-            // attribution starts afresh on every connection
-            let n = c.subs.len();
-            c.frontier = vec![c.subs.iter().map(|s| s.restart as u32).collect::<Vec<u32>>()];
-            debug_assert_eq!(c.frontier[0].len(), n);
         }
-        if self.clients[ci].will {
-            // registered by the router at connect time; content is checked on delivery
+        let c = &mut self.clients[ci];
+        // attribution starts afresh on every connection, from the restart points
+        c.frontier = vec![c.subs.iter().map(|s| s.restart).collect::<Vec<u32>>()];
+    }
+
+    fn drop_subscriptions(&mut self, ci: usize) {
+        let groups: Vec<String> = self.clients[ci]
+            .subs
+            .iter()
+            .filter(|s| s.active)
+            .filter_map(|s| s.group.clone())
+            .collect();
+        for g in groups {
+            self.leave_group(&g, ci);
+        }
+        let now = self.accepted.len() as u32;
+        self.clients[ci].subs.iter_mut().for_each(|s| {
+            if s.active {
+                s.active = false;
+                s.closed_at = Some(now);
+            }
+        });
+    }
+
+    fn leave_group(&mut self, g: &str, ci: usize) {
+        // a client is a member while it holds at least one active subscription in the group
+        if let Some(gm) = self.groups.get_mut(g) {
+            if gm.members.remove(&ci) && gm.members.is_empty() {
+                gm.epoch += 1;
+            }
         }
     }
 
@@ -205,29 +251,52 @@ impl Model {
         self.clients[ci].registered = false;
     }
 
-    /// the connection of `ci` is gone (any cause); `clean_disconnect` = DISCONNECT packet
-    fn end_connection(&mut self, ci: usize, _clean_disconnect: bool) {
-        let c = &mut self.clients[ci];
-        if !c.registered {
+    /// the connection of `ci` is gone (any cause)
+    fn end_connection(&mut self, ci: usize) {
+        if !self.clients[ci].registered {
             return;
         }
-        c.registered = false;
-        c.replies_expected.clear();
-        c.q2_recorded.clear();
-        if c.clean {
-            c.subs.iter_mut().for_each(|s| s.active = false);
+        let clean = self.clients[ci].clean;
+        {
+            let c = &mut self.clients[ci];
+            c.registered = false;
+            let owed: Vec<Rx> = c.replies_expected.drain(..).collect();
+            c.replies_optional.extend(owed);
+            c.q2_recorded.clear();
+        }
+        if clean {
+            self.drop_subscriptions(ci);
+            let c = &mut self.clients[ci];
             c.had_session = false;
             c.outstanding.clear();
             c.rel_outstanding.clear();
         } else {
+            let c = &mut self.clients[ci];
             c.had_session = true;
-            // delivery restarts, per subscription, at the oldest unacknowledged message:
-            // computed by the C08 oracle from what was acknowledged (see restart_points)
+            // delivery restarts, per subscription, at its oldest unacknowledged message
+            let delivered: Vec<u32> = (0..c.subs.len())
+                .map(|j| c.frontier.iter().map(|p| p[j]).min().unwrap_or(0))
+                .collect();
+            for (j, s) in c.subs.iter_mut().enumerate() {
+                if !s.active {
+                    continue;
+                }
+                let oldest_unacked = c
+                    .outstanding
+                    .iter()
+                    .filter_map(|(_, a)| *a)
+                    .filter(|(sj, _)| *sj as usize == j)
+                    .map(|(_, pos)| pos)
+                    .min();
+                s.restart = oldest_unacked.unwrap_or(delivered[j]);
+                s.skip_to = if s.qos == 0 { s.expect.len() as u32 } else { s.restart };
+            }
+            c.outstanding.clear();
         }
     }
 
     pub fn link_lost(&mut self, ci: usize) {
-        self.end_connection(ci, false);
+        self.end_connection(ci);
     }
 
     pub fn link_ended_by_router(&mut self, ci: usize) {
@@ -238,7 +307,7 @@ impl Model {
             );
             self.v("unexpected_close", d);
         }
-        self.end_connection(ci, false);
+        self.end_connection(ci);
     }
 
     pub fn will_event(&mut self, name: &str) {
@@ -261,7 +330,7 @@ impl Model {
 
     fn accept(&mut self, m: Msg) {
         let idx = self.accepted.len() as u32;
-        // retained bookkeeping (statement: retained + empty clears; retained non-empty replaces)
+        // retained: a retained publish replaces, a retained empty publish removes
         if m.retain {
             if m.payload.is_empty() {
                 self.retained.remove(&m.topic);
@@ -269,13 +338,28 @@ impl Model {
                 self.retained.insert(m.topic.clone(), idx);
             }
         }
-        if !m.payload.is_empty() {
-            self.by_payload.insert(m.payload.clone(), idx);
-        }
+        let mut group_hits: BTreeSet<String> = BTreeSet::new();
         for c in self.clients.iter_mut() {
             for s in c.subs.iter_mut() {
                 if s.active && ref_matches(&m.topic, &s.match_filter) {
-                    s.expect.push(idx);
+                    match &s.group {
+                        None => s.expect.push(idx),
+                        Some(g) => {
+                            group_hits.insert(g.clone());
+                        }
+                    }
+                }
+            }
+        }
+        for g in group_hits {
+            if let Some(gm) = self.groups.get(&g) {
+                if !gm.members.is_empty() {
+                    self.gmsgs.push(GMsg {
+                        idx,
+                        group: g.clone(),
+                        gepoch: gm.epoch,
+                        delivered_to: vec![],
+                    });
                 }
             }
         }
@@ -324,7 +408,7 @@ impl Model {
                     let m = self.held[h as usize].clone();
                     self.accept(m);
                 }
-                None => self.closing(ci, "PUBREL for nothing recorded"),
+                None => self.closing(ci),
             },
             Tx::Subscribe { pkid, filters, .. } => {
                 let mut codes = vec![];
@@ -332,42 +416,50 @@ impl Model {
                     codes.push(*q);
                     self.subscribe(ci, f, *q);
                 }
-                self.clients[ci].replies_expected.push_back(Rx::SubAck {
-                    pkid: *pkid,
-                    codes,
-                });
+                self.clients[ci].replies_expected.push_back(Rx::SubAck { pkid: *pkid, codes });
             }
             Tx::Unsubscribe { pkid, filters } => {
                 for f in filters {
+                    let mut left: Vec<String> = vec![];
+                    let now = self.accepted.len() as u32;
                     for s in self.clients[ci].subs.iter_mut() {
                         if s.active && s.filter == *f {
                             s.active = false;
+                            s.closed_at = Some(now);
+                            if let Some(g) = &s.group {
+                                left.push(g.clone());
+                            }
+                        }
+                    }
+                    for g in left {
+                        let still = self.clients[ci]
+                            .subs
+                            .iter()
+                            .any(|s| s.active && s.group.as_deref() == Some(g.as_str()));
+                        if !still {
+                            self.leave_group(&g, ci);
                         }
                     }
                 }
-                self.clients[ci]
-                    .replies_expected
-                    .push_back(Rx::UnsubAck { pkid: *pkid });
+                self.clients[ci].replies_expected.push_back(Rx::UnsubAck { pkid: *pkid });
             }
             Tx::PingReq => self.clients[ci].replies_expected.push_back(Rx::PingResp),
             Tx::PubAck(id) => {
                 let c = &mut self.clients[ci];
-                if c.outstanding.front() == Some(id) {
+                if c.outstanding.front().map(|e| e.0) == Some(*id) {
                     c.outstanding.pop_front();
-                    self.acked(ci);
                 } else {
-                    self.closing(ci, "unsolicited PUBACK");
+                    self.closing(ci);
                 }
             }
             Tx::PubRec(id) => {
                 let c = &mut self.clients[ci];
-                if c.outstanding.front() == Some(id) {
+                if c.outstanding.front().map(|e| e.0) == Some(*id) {
                     c.outstanding.pop_front();
                     c.rel_outstanding.push_back(*id);
                     c.replies_expected.push_back(Rx::PubRel(*id));
-                    self.acked(ci);
                 } else {
-                    self.closing(ci, "unsolicited PUBREC");
+                    self.closing(ci);
                 }
             }
             Tx::PubComp(id) => {
@@ -375,33 +467,26 @@ impl Model {
                 if c.rel_outstanding.front() == Some(id) {
                     c.rel_outstanding.pop_front();
                 } else {
-                    self.closing(ci, "unsolicited PUBCOMP");
+                    self.closing(ci);
                 }
             }
             Tx::Disconnect => {
                 let name = super::NAMES[ci].to_string();
                 self.wills.remove(&name);
-                self.clients[ci].closed_by_model = true;
-                self.end_connection(ci, true);
+                self.end_connection(ci);
             }
             Tx::Raw(_) => {}
+            Tx::CloseMark => self.closing(ci),
         }
     }
 
-    /// a QoS>0 forward was acknowledged in order: the oldest unacknowledged message of
-    /// the subscription it belongs to moves on (used by the C08 restart computation)
-    fn acked(&mut self, ci: usize) {
-        self.clients[ci].acked_count += 1;
-    }
-
-    fn closing(&mut self, ci: usize, _why: &str) {
-        self.clients[ci].closed_by_model = true;
-        self.end_connection(ci, false);
+    /// the client did something for which the broker closes its connection
+    pub fn closing(&mut self, ci: usize) {
+        self.end_connection(ci);
     }
 
     fn subscribe(&mut self, ci: usize, f: &str, q: u8) {
         let (group, mf) = split_share(f);
-        let epoch = self.clients[ci].epoch;
         if self.clients[ci].subs.iter().any(|s| s.active && s.filter == f) {
             // repeating an existing subscription: nothing new (no retained replay)
             return;
@@ -415,6 +500,9 @@ impl Model {
                 }
             }
         }
+        if let Some(g) = &group {
+            self.groups.entry(g.clone()).or_default().members.insert(ci);
+        }
         let c = &mut self.clients[ci];
         c.subs.push(SubInst {
             filter: f.to_string(),
@@ -423,12 +511,13 @@ impl Model {
             qos: q,
             expect: vec![],
             active: true,
-            epoch,
             lagged: false,
             retained_due,
             retained_seen: vec![],
             replay_retained: replay,
             restart: 0,
+            skip_to: 0,
+            closed_at: None,
         });
         for p in c.frontier.iter_mut() {
             p.push(0);
@@ -437,17 +526,14 @@ impl Model {
 
     // ------------------------------------------------------------ observations
 
-    /// the router pushed a QoS>0 forward towards `ci` (seen when the link drains)
     pub fn received(&mut self, ci: usize, rx: &Rx) {
         self.outcome_acc = crate::vcore::fp64(&(self.outcome_acc, ci, rx));
         match rx {
             Rx::ConnAck { session_present, ok } => {
-                let c = &mut self.clients[ci];
-                c.session_present = Some(*session_present);
                 if !*ok {
                     self.v("connack_not_success", format!("{} got a failing CONNACK from the router", super::NAMES[ci]));
                 } else if let Some(exp) = self.clients[ci].expect_session_present {
-                    if exp != *session_present && matches!(self.prop.as_str(), "C08") {
+                    if exp != *session_present && self.check_session {
                         self.v(
                             "session_present",
                             format!("{}: CONNACK session_present={} but expected {}", super::NAMES[ci], session_present, exp),
@@ -459,11 +545,11 @@ impl Model {
                 topic,
                 qos,
                 retain,
-                dup,
                 pkid,
                 payload,
                 props,
-            } => self.forward(ci, topic, *qos, *retain, *dup, *pkid, payload, props),
+                ..
+            } => self.forward(ci, topic, *qos, *retain, *pkid, payload, props),
             Rx::PubAck(_) | Rx::PubRec(_) | Rx::PubComp(_) | Rx::SubAck { .. } | Rx::UnsubAck { .. } | Rx::PingResp | Rx::PubRel(_) => {
                 self.reply(ci, rx)
             }
@@ -473,152 +559,276 @@ impl Model {
     }
 
     fn reply(&mut self, ci: usize, rx: &Rx) {
-        if !self.check_replies {
-            // keep the queue in step without judging
-            let c = &mut self.clients[ci];
-            if c.replies_expected.front() == Some(rx) {
-                c.replies_expected.pop_front();
-            }
-            return;
-        }
+        let check = self.check_replies;
         let c = &mut self.clients[ci];
-        c.replies_seen += 1;
         match c.replies_expected.front() {
             Some(e) if e == rx => {
                 c.replies_expected.pop_front();
             }
             other => {
-                let d = format!(
-                    "{} received {:?}; next owed reply is {:?} (queue {:?})",
-                    super::NAMES[ci],
-                    rx,
-                    other,
-                    c.replies_expected
-                );
-                self.v("unexpected_reply", d);
+                if let Some(p) = c.replies_optional.iter().position(|e| e == rx) {
+                    // owed before the connection was closed; everything older is skipped
+                    c.replies_optional.drain(..=p);
+                    return;
+                }
+                if check {
+                    let d = format!(
+                        "{} received {:?}; next owed reply is {:?} (queue {:?})",
+                        super::NAMES[ci],
+                        rx,
+                        other,
+                        c.replies_expected
+                    );
+                    self.v("unexpected_reply", d);
+                } else if let Some(p) = c.replies_expected.iter().position(|e| e == rx) {
+                    c.replies_expected.remove(p);
+                }
             }
         }
     }
 
+    fn content_is(&self, idx: u32, topic: &str, payload: &[u8]) -> bool {
+        let m = &self.accepted[idx as usize];
+        m.topic == topic && m.payload == payload
+    }
+
     #[allow(clippy::too_many_arguments)]
-    fn forward(&mut self, ci: usize, topic: &str, qos: u8, retain: bool, dup: bool, pkid: u16, payload: &[u8], props: &Option<Props>) {
-        let msg = self.by_payload.get(payload).cloned();
-        let epoch = self.clients[ci].epoch;
-        self.clients[ci].forwards.push(Fwd {
-            msg,
-            qos,
-            pkid,
-            retain,
-            dup,
-            epoch,
-            topic: topic.to_string(),
-            props: props.clone(),
-        });
-        // outbound window (C09)
+    fn forward(&mut self, ci: usize, topic: &str, qos: u8, retain: bool, pkid: u16, payload: &[u8], props: &Option<Props>) {
+        self.clients[ci].forwards += 1;
+        let name = super::NAMES[ci];
+        // ---- outbound window (C09): checked for every property, it is cheap
+        let mut window_slot = false;
         if qos > 0 {
-            let c = &mut self.clients[ci];
             if pkid == 0 {
-                self.v("forward_pkid_zero", format!("QoS{qos} forward to {} carries packet id 0", super::NAMES[ci]));
-            } else if c.outstanding.contains(&pkid) {
+                self.v("forward_pkid_zero", format!("QoS{qos} forward to {name} carries packet id 0"));
+            } else if self.clients[ci].outstanding.iter().any(|e| e.0 == pkid) {
                 let d = format!(
-                    "forward to {} reuses packet id {pkid} while it is still unacknowledged ({:?})",
-                    super::NAMES[ci],
-                    c.outstanding
+                    "forward to {name} reuses packet id {pkid} while it is still unacknowledged ({:?})",
+                    self.clients[ci].outstanding.iter().map(|e| e.0).collect::<Vec<_>>()
                 );
                 self.v("forward_pkid_reused", d);
             }
-            let c = &mut self.clients[ci];
-            c.outstanding.push_back(pkid);
-            if c.outstanding.len() > 100 {
-                let d = format!("{} has {} QoS>0 publishes awaiting acknowledgement", super::NAMES[ci], c.outstanding.len());
-                self.v("window_exceeded", d);
-            }
+            window_slot = true;
         }
         if !self.check_forwards {
+            if window_slot {
+                self.push_outstanding(ci, pkid, None);
+            }
             return;
         }
-        let Some(m) = msg else {
-            self.v(
-                "spurious_forward",
-                format!("{} received a publish nobody sent: topic={topic} payload={:?}", super::NAMES[ci], String::from_utf8_lossy(payload)),
-            );
-            return;
-        };
-        let orig_topic = self.accepted[m as usize].topic.clone();
-        if orig_topic != topic {
-            self.v("forward_topic", format!("{} received message {m} with topic {topic:?}, published on {orig_topic:?}", super::NAMES[ci]));
-            return;
-        }
+        // ---- replay of a retained message for a new subscription
         if retain {
-            // replay of a retained message for a new subscription
-            let c = &mut self.clients[ci];
+            if window_slot {
+                self.push_outstanding(ci, pkid, None);
+            }
             let mut ok = false;
-            for s in c.subs.iter_mut() {
-                if s.active && s.replay_retained && s.qos == qos && s.retained_due.contains(&m) && !s.retained_seen.contains(&m) {
-                    s.retained_seen.push(m);
-                    ok = true;
+            let mut hit: Option<(usize, u32)> = None;
+            for (j, s) in self.clients[ci].subs.iter().enumerate() {
+                if !(s.active && s.replay_retained && s.qos == qos) {
+                    continue;
+                }
+                for m in s.retained_due.iter() {
+                    if !s.retained_seen.contains(m) && self.content_is(*m, topic, payload) {
+                        hit = Some((j, *m));
+                        break;
+                    }
+                }
+                if hit.is_some() {
                     break;
                 }
             }
+            if let Some((j, m)) = hit {
+                self.clients[ci].subs[j].retained_seen.push(m);
+                ok = true;
+            }
             if !ok {
                 let d = format!(
-                    "{} received message {m} ({topic}) flagged retained, but no new subscription of it is owed that replay",
-                    super::NAMES[ci]
+                    "{name} received {topic} ({:?}) flagged retained, but no new subscription of it is owed that replay",
+                    String::from_utf8_lossy(payload)
                 );
                 self.v("retained_flag_unexpected", d);
             }
             return;
         }
-        // live forward: must extend some attribution
-        let c = &mut self.clients[ci];
+        // ---- live forward through a plain subscription: must extend some attribution
         let mut next: Vec<Vec<u32>> = vec![];
-        let mut seen: HashSet<Vec<u32>> = HashSet::new();
-        for pos in c.frontier.iter() {
-            for (j, s) in c.subs.iter().enumerate() {
-                if s.group.is_some() || s.qos != qos {
-                    continue;
-                }
-                let p = pos[j] as usize;
-                if s.expect.get(p) == Some(&m) {
-                    let mut n = pos.clone();
-                    n[j] += 1;
-                    if seen.insert(n.clone()) {
-                        next.push(n);
+        let mut attr: Option<(u32, u32)> = None;
+        let mut n_attr = 0;
+        {
+            let c = &self.clients[ci];
+            let mut seen: HashSet<Vec<u32>> = HashSet::new();
+            for pos in c.frontier.iter() {
+                for (j, s) in c.subs.iter().enumerate() {
+                    if s.group.is_some() || s.qos != qos {
+                        continue;
+                    }
+                    let p = pos[j];
+                    let mut cand: Option<u32> = None;
+                    if let Some(e) = s.expect.get(p as usize) {
+                        if self.content_is(*e, topic, payload) {
+                            cand = Some(p);
+                        }
+                    }
+                    if cand.is_none() && s.qos == 0 && p < s.skip_to {
+                        // QoS0 messages in flight when the previous connection ended may be lost
+                        for q in p + 1..=s.skip_to.min(s.expect.len() as u32) {
+                            if let Some(e) = s.expect.get(q as usize) {
+                                if self.content_is(*e, topic, payload) {
+                                    cand = Some(q);
+                                    break;
+                                }
+                            }
+                        }
+                    }
+                    if let Some(q) = cand {
+                        let mut n = pos.clone();
+                        n[j] = q + 1;
+                        if seen.insert(n.clone()) {
+                            next.push(n);
+                            attr = Some((j as u32, q));
+                            n_attr += 1;
+                        }
                     }
                 }
             }
         }
-        if next.is_empty() {
-            // C17 handles forwards through shared groups with its own oracle
-            if c.subs.iter().any(|s| s.group.is_some() && s.active && ref_matches(topic, &s.match_filter)) {
-                return;
+        if !next.is_empty() {
+            if next.len() > 64 {
+                next.truncate(64);
             }
-            let subs: Vec<String> = c
-                .subs
-                .iter()
-                .enumerate()
-                .map(|(j, s)| {
-                    format!(
-                        "[{} q{} active={} next_owed={:?}]",
-                        s.filter,
-                        s.qos,
-                        s.active,
-                        c.frontier.first().and_then(|p| s.expect.get(p[j] as usize))
-                    )
-                })
-                .collect();
-            let d = format!(
-                "{} received message {m} (topic {topic}, qos {qos}) which is not the next owed message of any of its subscriptions {}",
-                super::NAMES[ci],
-                subs.join(" ")
-            );
-            self.v("unexpected_forward", d);
+            self.clients[ci].frontier = next;
+            if window_slot {
+                self.push_outstanding(ci, pkid, if n_attr == 1 { attr } else { None });
+            }
+            if self.check_props {
+                self.check_forward_props(ci, attr, props);
+            }
             return;
         }
-        if next.len() > 64 {
-            next.truncate(64);
+        // ---- forward through a shared group
+        // (a membership that has ended still explains messages accepted before it ended:
+        // they may sit in the member's buffer)
+        let newest_undelivered = self
+            .gmsgs
+            .iter()
+            .filter(|g| g.delivered_to.is_empty() && self.content_is(g.idx, topic, payload))
+            .map(|g| g.idx)
+            .min();
+        let via_group: Option<String> = self.clients[ci]
+            .subs
+            .iter()
+            .find(|s| {
+                s.group.is_some()
+                    && s.qos == qos
+                    && ref_matches(topic, &s.match_filter)
+                    && (s.active || newest_undelivered.is_some_and(|i| s.closed_at.is_some_and(|c| i < c)))
+            })
+            .and_then(|s| s.group.clone());
+        if let Some(g) = via_group {
+            if window_slot {
+                self.push_outstanding(ci, pkid, None);
+            }
+            self.shared_forward(ci, &g, topic, payload);
+            return;
         }
-        c.frontier = next;
+        if window_slot {
+            self.push_outstanding(ci, pkid, None);
+        }
+        let known = self
+            .accepted
+            .iter()
+            .position(|m| m.topic == topic && m.payload == payload);
+        let c = &self.clients[ci];
+        let subs: Vec<String> = c
+            .subs
+            .iter()
+            .enumerate()
+            .filter(|(_, s)| s.active)
+            .map(|(j, s)| {
+                let nx = c.frontier.first().and_then(|p| s.expect.get(p[j] as usize)).map(|e| {
+                    let m = &self.accepted[*e as usize];
+                    format!("{}:{}", m.topic, String::from_utf8_lossy(&m.payload))
+                });
+                format!("[{} q{} next_owed={:?}]", s.filter, s.qos, nx)
+            })
+            .collect();
+        let d = format!(
+            "{name} received {topic}:{} (qos {qos}){} which is not the next owed message of any of its subscriptions {}",
+            String::from_utf8_lossy(payload),
+            if known.is_none() { " that nobody published" } else { "" },
+            subs.join(" ")
+        );
+        self.v(if known.is_none() { "spurious_forward" } else { "unexpected_forward" }, d);
+    }
+
+    fn push_outstanding(&mut self, ci: usize, pkid: u16, attr: Option<(u32, u32)>) {
+        let c = &mut self.clients[ci];
+        c.outstanding.push_back((pkid, attr));
+        if c.outstanding.len() > 100 {
+            let d = format!(
+                "{} has {} QoS>0 publishes awaiting acknowledgement",
+                super::NAMES[ci],
+                c.outstanding.len()
+            );
+            self.v("window_exceeded", d);
+        }
+    }
+
+    fn check_forward_props(&mut self, ci: usize, attr: Option<(u32, u32)>, props: &Option<Props>) {
+        let Some((j, q)) = attr else { return };
+        let idx = self.clients[ci].subs[j as usize].expect[q as usize];
+        let sent = self.accepted[idx as usize].props.clone().map(|p| p.end_to_end()).filter(|p| !p.is_empty());
+        let got = props.clone().map(|p| p.end_to_end()).filter(|p| !p.is_empty());
+        if !self.v5[ci] {
+            if got.is_some() {
+                self.v("props_towards_v4", format!("{} (MQTT 3.1.1) received properties {got:?}", super::NAMES[ci]));
+            }
+        } else if sent != got {
+            self.v(
+                "props_not_preserved",
+                format!("{} (MQTT 5) received properties {got:?}, publisher sent {sent:?}", super::NAMES[ci]),
+            );
+        }
+    }
+
+    fn shared_forward(&mut self, ci: usize, g: &str, topic: &str, payload: &[u8]) {
+        let name = super::NAMES[ci];
+        // oldest message of the group with this content that this member has not received
+        let mut hit: Option<usize> = None;
+        for (k, gm) in self.gmsgs.iter().enumerate() {
+            if gm.group == g && self.content_is(gm.idx, topic, payload) {
+                hit = Some(k);
+                if gm.delivered_to.is_empty() {
+                    break;
+                }
+            }
+        }
+        let Some(k) = hit else {
+            self.v(
+                "shared_spurious",
+                format!("{name} received {topic}:{} through group {g}, which was never accepted for that group", String::from_utf8_lossy(payload)),
+            );
+            return;
+        };
+        let idx = self.gmsgs[k].idx;
+        if !self.gmsgs[k].delivered_to.is_empty() {
+            let d = format!(
+                "message {topic}:{} of group {g} was forwarded to {name} after it had already been forwarded to {:?}",
+                String::from_utf8_lossy(payload),
+                self.gmsgs[k].delivered_to.iter().map(|c| super::NAMES[*c]).collect::<Vec<_>>()
+            );
+            self.v("shared_duplicate", d);
+        }
+        self.gmsgs[k].delivered_to.push(ci);
+        if let Some(last) = self.clients[ci].shared_seen.last() {
+            if *last > idx {
+                self.v(
+                    "shared_order",
+                    format!("{name} received message #{idx} of group {g} after message #{last}"),
+                );
+            }
+        }
+        self.clients[ci].shared_seen.push(idx);
     }
 
     // ------------------------------------------------------------ closure-time oracles
@@ -649,7 +859,7 @@ impl Model {
                         .filter(|(_, s)| s.active && s.group.is_none())
                         .map(|(j, s)| {
                             let got = c.frontier.iter().map(|p| p[j]).max().unwrap_or(0);
-                            format!("{}: {}/{} delivered", s.filter, got, s.expect.len())
+                            format!("{} (q{}): {}/{} delivered", s.filter, s.qos, got, s.expect.len())
                         })
                         .collect();
                     out.push((
@@ -681,6 +891,25 @@ impl Model {
                 }
             }
         }
+        if self.check_forwards {
+            for gm in self.gmsgs.iter() {
+                let Some(g) = self.groups.get(&gm.group) else { continue };
+                let live_member = g.members.iter().any(|m| self.clients[*m].registered);
+                if gm.delivered_to.is_empty() && g.epoch == gm.gepoch && live_member {
+                    let m = &self.accepted[gm.idx as usize];
+                    out.push((
+                        "shared_undelivered".into(),
+                        format!(
+                            "message {}:{} accepted for group {} (members {:?}) reached no member although the group never became empty",
+                            m.topic,
+                            String::from_utf8_lossy(&m.payload),
+                            gm.group,
+                            g.members.iter().map(|c| super::NAMES[*c]).collect::<Vec<_>>()
+                        ),
+                    ));
+                }
+            }
+        }
     }
 
     pub fn hash_state<H: Hasher>(&self, h: &mut H) {
@@ -692,6 +921,8 @@ impl Model {
         self.retained.hash(h);
         self.wills.hash(h);
         self.wills_fired.hash(h);
+        self.groups.hash(h);
+        self.gmsgs.hash(h);
     }
 
     pub fn outcome(&self) -> u64 {
@@ -703,12 +934,13 @@ impl Model {
         for (i, c) in self.clients.iter().enumerate() {
             if c.ever_connected {
                 s += &format!(
-                    "[{} reg={} fw={} owed={:?} out={:?}] ",
+                    "[{} reg={} fw={} owed={:?} out={:?} subs={:?}] ",
                     super::NAMES[i],
                     c.registered,
-                    c.forwards.len(),
+                    c.forwards,
                     c.replies_expected,
-                    c.outstanding
+                    c.outstanding.iter().map(|e| e.0).collect::<Vec<_>>(),
+                    c.subs.iter().filter(|s| s.active).map(|s| format!("{}q{}:{}", s.filter, s.qos, s.expect.len())).collect::<Vec<_>>()
                 );
             }
         }
